@@ -6,6 +6,7 @@ import (
 	"crypto/elliptic"
 	"crypto/rsa"
 	"crypto/x509"
+	"fmt"
 	"math/big"
 	"strings"
 
@@ -179,6 +180,37 @@ func genDid(c *Ctx) {
 			c.Emit("did/key-"+g.name, WList(WStr("key"), WStr(g.name)), WList(WBool(fromOK), WBool(parseSame), WBool(keySame)))
 		}
 	}
+	// RSA keys of every size class libp2p accepts, with synthetic odd moduli (no prime search): key -> DID -> text -> DID -> key
+	for _, bits := range []int{2048, 3072, 4096, 7680, 8192} {
+		nb := new(big.Int).SetBytes(rd.r.Bytes(bits / 8))
+		nb.SetBit(nb, bits-1, 1)
+		nb.SetBit(nb, 0, 1)
+		std := &rsa.PublicKey{N: nb, E: 65537}
+		der, err := x509.MarshalPKIXPublicKey(std)
+		if err != nil {
+			continue
+		}
+		pub, err := crypto.UnmarshalRsaPublicKey(der)
+		if err != nil {
+			continue
+		}
+		fromOK, parseSame, keySame := false, false, false
+		func() {
+			defer func() { recover() }()
+			d, err := did.FromPubKey(pub)
+			if err != nil {
+				return
+			}
+			fromOK = true
+			if d2, err := did.Parse(d.String()); err == nil && d2 == d {
+				parseSame = true
+				if pk, err := d2.PubKey(); err == nil && pk.Equals(pub) {
+					keySame = true
+				}
+			}
+		}()
+		c.Emit(fmt.Sprintf("did/key-rsa-sized/%d", bits), WList(WStr("key"), WStr("rsa")), WList(WBool(fromOK), WBool(parseSame), WBool(keySame)))
+	}
 	// ECDSA keys over the secp256k1 curve (FromPubKey coerces them to the secp256k1 key type): random ones, and
 	// ones whose X or Y coordinate has a leading zero byte (one key in 128)
 	{
@@ -287,6 +319,12 @@ func genDid(c *Ctx) {
 			didParseCase(c, "did/alt-rsa-trailing", mk(0x1205, append(append([]byte{}, der...), 0)))
 			didParseCase(c, "did/alt-rsa-truncated", mk(0x1205, der[:len(der)-3]))
 			didParseCase(c, "did/alt-rsa-as-pkix", mk(0x1205, func() []byte { b, _ := x509.MarshalPKIXPublicKey(k); return b }()))
+			// a third element inside the RSAPublicKey sequence (encoding/asn1 tolerates trailing elements)
+			if len(der) > 4 && der[1] == 0x82 {
+				inner := append(append([]byte{}, der[4:]...), 0x02, 0x01, 0x00)
+				ext := append([]byte{der[0], 0x82, byte(len(inner) >> 8), byte(len(inner))}, inner...)
+				didParseCase(c, "did/alt-rsa-extra-element", mk(0x1205, ext))
+			}
 			// non-minimal DER length of the outer sequence (long form with a leading zero byte)
 			if len(der) > 4 && der[1] == 0x82 {
 				nm := append([]byte{der[0], 0x83, 0x00, der[2], der[3]}, der[4:]...)
